@@ -631,11 +631,90 @@ class Inliner:
                 c.body = [st for st in c.body if keep(st, f"{mn}.{c.name}")] or [ast.Pass()]
 
 
+class _DesugarMatch(ast.NodeTransformer):
+    """`match x: case C(): ... case A() | B(): ... case 1: ... case _ if g: ... case _: ...` -> the equivalent if / elif chain.
+
+    Only patterns without sub-patterns and without captures are rewritten (class patterns without arguments, literal values,
+    None/True/False, wildcards, alternatives of those, each optionally with a guard); a `match` using anything else is left alone.
+    The engines (CFG, guard facts, rejections, branch tables) read `if isinstance(...)` chains; a `match` over classes is the same
+    decision list in another spelling."""
+
+    def __init__(self) -> None:
+        self.count = 0
+
+    def _test(self, subj: ast.expr, pat: ast.pattern) -> ast.expr | None | bool:
+        if isinstance(pat, ast.MatchAs) and pat.pattern is None and pat.name is None:
+            return True  # wildcard
+        if isinstance(pat, ast.MatchClass) and not pat.patterns and not pat.kwd_patterns:
+            return ast.Call(func=ast.Name(id="isinstance", ctx=ast.Load()), args=[copy.deepcopy(subj), pat.cls], keywords=[])
+        if isinstance(pat, ast.MatchValue):
+            return ast.Compare(left=copy.deepcopy(subj), ops=[ast.Eq()], comparators=[pat.value])
+        if isinstance(pat, ast.MatchSingleton):
+            return ast.Compare(left=copy.deepcopy(subj), ops=[ast.Is()], comparators=[ast.Constant(value=pat.value)])
+        if isinstance(pat, ast.MatchOr):
+            parts = [self._test(subj, p_) for p_ in pat.patterns]
+            if any(p_ is None for p_ in parts):
+                return None
+            if any(p_ is True for p_ in parts):
+                return True
+            if all(isinstance(p_, ast.Call) and isinstance(p_.func, ast.Name) and p_.func.id == "isinstance" for p_ in parts):
+                return ast.Call(func=ast.Name(id="isinstance", ctx=ast.Load()), args=[copy.deepcopy(subj), ast.Tuple(elts=[p_.args[1] for p_ in parts], ctx=ast.Load())], keywords=[])  # type: ignore[union-attr]
+            return ast.BoolOp(op=ast.Or(), values=parts)  # type: ignore[arg-type]
+        return None
+
+    def visit_Match(self, node: ast.Match):  # noqa: N802
+        self.generic_visit(node)
+        if not isinstance(node.subject, (ast.Name, ast.Attribute)):
+            return node
+        arms: list[tuple[ast.expr | None, list[ast.stmt]]] = []
+        for case in node.cases:
+            t = self._test(node.subject, case.pattern)
+            if t is None:
+                return node
+            if t is True:
+                test = case.guard
+            elif case.guard is not None:
+                test = ast.BoolOp(op=ast.And(), values=[t, case.guard])
+            else:
+                test = t
+            arms.append((test, case.body))
+            if test is None:
+                break  # an unguarded wildcard: nothing after it is reachable
+        root: ast.If | None = None
+        cur: ast.If | None = None
+        tail: list[ast.stmt] = []
+        for test, body in arms:
+            if test is None:
+                tail = body
+                break
+            new = ast.If(test=test, body=body, orelse=[])
+            if cur is None:
+                root = new
+            else:
+                cur.orelse = [new]
+            cur = new
+        if root is None:
+            out: list[ast.stmt] = tail or [ast.Pass()]
+        else:
+            cur.orelse = tail  # type: ignore[union-attr]
+            out = [root]
+        for o in out:
+            ast.copy_location(o, node)
+            ast.fix_missing_locations(o)
+        self.count += 1
+        return out
+
+
 def normalise(trees: dict[str, ast.Module]) -> dict:
     """Inline unknown private helpers in place; returns statistics (empty when there is no table)."""
+    n_match = 0
+    for name, tree in trees.items():
+        dm = _DesugarMatch()
+        trees[name] = dm.visit(tree)
+        n_match += dm.count
     known = load_known()
     if known is None:
-        return {}
+        return {"match_desugared": n_match}
     inl = Inliner(trees, known)
     inl.run()
-    return {**inl.stats, "dropped": inl.dropped, "log": inl.log[:200]}
+    return {**inl.stats, "match_desugared": n_match, "dropped": inl.dropped, "log": inl.log[:200]}
